@@ -18,6 +18,7 @@
 (***************************************************************************)
 EXTENDS SimProps, SimMatch, Json, IOUtils, TLCExt
 STL == INSTANCE Settlement
+EXP == INSTANCE Exposure
 
 CONSTANT Props        \* which formula families to evaluate, e.g. {"R", "C03", "C04"}
 
@@ -45,9 +46,12 @@ Oracle(e) == [ord |-> e.st.ord, mkt |-> e.st.mkt,
 
 -----------------------------------------------------------------------------
 (* Layer R *)
+\* a runner context that was only looked up (no trade placed or reset yet) is the same as none
+NormRc(s) == [s EXCEPT !.rc = [k \in {x \in DOMAIN s.rc : s.rc[x].trades # <<>> \/ s.rc[x].live # <<>>
+                                                         \/ s.rc[x].lastp >= 0 \/ s.rc[x].lastr >= 0} |-> s.rc[k]]]
 Conforms(pre, e) ==
-    LET exp == Step(pre, e, Oracle(e))
-        got == e.st
+    LET exp == NormRc(Step(pre, e, Oracle(e)))
+        got == NormRc(e.st)
     IN IF exp = got THEN TRUE
        ELSE Drift(e.ev,
                   <<DiffRec(exp, got) \ {"ord", "trd", "rc", "mkt"},
@@ -423,6 +427,79 @@ P_C20(pre, e) ==
     /\ (e.ev = "upd" /\ e.a.status = "CLOSED" =>
           Ck("C20", "ClosedBookProcessed", e.a.will_close, <<e.a.mid, e.a.pt>>))
 
+
+-----------------------------------------------------------------------------
+(* C01 exposure limits (decision points and end of every update) *)
+StratSelOrders(s, strat, mid, selk) ==
+    {k \in DOMAIN s.ord : s.ord[k].strat = strat /\ s.ord[k].mid = mid /\ s.ord[k].selk = selk /\ s.ord[k].inbl}
+PosOf(s, strat, mid, selk) == [k \in StratSelOrders(s, strat, mid, selk) |-> s.ord[k]]
+BySel(s, strat, mid) ==
+    [sk \in {s.ord[k].selk : k \in {x \in DOMAIN s.ord : s.ord[x].strat = strat /\ s.ord[x].mid = mid /\ s.ord[x].inbl}} |->
+        PosOf(s, strat, mid, sk)]
+\* the request's order, counted in full as an acknowledged unmatched order at the price it will rest at
+AsNew(s, q) ==
+    IF q.kind = "PLACE"
+    THEN [NewOrderRec(s, q) EXCEPT !.status = "EXECUTABLE"]
+    ELSE LET o == s.ord[q.o] IN
+         [o EXCEPT !.status = "EXECUTABLE", !.cplt = FALSE, !.price = q.price, !.size = Rem(o),
+                   !.m = 0, !.avg = 0, !.can = 0, !.lap = 0, !.void = 0, !.frags = <<>>]
+\* position after the request: for a replace the original keeps its matched part, its remainder moves
+WithNew(s, q) ==
+    LET selk == IF q.kind = "PLACE" THEN q.selk ELSE s.ord[q.o].selk
+        strat == IF q.kind = "PLACE" THEN q.strat ELSE s.ord[q.o].strat
+        base == PosOf(s, strat, q.mid, selk)
+        base2 == IF q.kind = "REPLACE"
+                 THEN [base EXCEPT ![q.o] = [base[q.o] EXCEPT !.can = @ + Rem(base[q.o]), !.cplt = TRUE, !.status = "COMPLETE"]]
+                 ELSE base
+    IN [k \in DOMAIN base2 \cup {"#new"} |-> IF k = "#new" THEN AsNew(s, q) ELSE base2[k]]
+
+SentWithinLimits(s, q) ==
+    LET new == AsNew(s, q)
+        p2 == WithNew(s, q)
+        n == Cardinality(DOMAIN p2)
+        tol == (n + 1) * 100
+        selk == new.selk
+        strat == new.strat
+        others == BySel(s, strat, q.mid)
+        bysel2 == [sk \in DOMAIN others \cup {selk} |-> IF sk = selk THEN p2 ELSE others[sk]]
+        sideLoss == IF new.side = "BACK" THEN -EXP!BruteLose(p2) ELSE -EXP!BruteWin(p2)
+    IN /\ (q.maxorder >= 0 => EXP!OrderExposure(new, new.price) <= q.maxorder * 100 + 100)
+       /\ (q.maxsel >= 0 => sideLoss <= q.maxsel * 100 + tol)
+       /\ (q.maxmkt >= 0 /\ Has(s.mkt, q.mid) =>
+             -EXP!MarketBrute(bysel2, s.mkt[q.mid].nactive, s.mkt[q.mid].nwin) <= q.maxmkt * 100 + tol * 4)
+
+P_C01(pre, e) ==
+    /\ (e.ev = "cb" =>
+          LET RECURSIVE Walk(_, _)
+              Walk(s, qs) ==
+                 IF qs = <<>> THEN TRUE
+                 ELSE LET q == Head(qs)
+                      IN /\ ((q.r = "ACCEPT" /\ ~q.force /\ q.kind \in {"PLACE", "REPLACE"}
+                              /\ (q.kind = "REPLACE" => Has(s.ord, q.o)))
+                             => Ck("C01", "SentOnlyIfWithin", SentWithinLimits(s, q),
+                                   <<q.kind, q.o, q.maxorder, q.maxsel, q.maxmkt>>))
+                         \* a refused new order is marked as a violation and stays out of the blotter
+                         /\ ((q.r = "REFUSE" /\ q.kind = "PLACE" /\ Has(ReqOne(s, q).ord, q.o) /\ ~(Has(s.ord, q.o) /\ s.ord[q.o].inbl))
+                             => Ck("C01", "RefusedIsViolation",
+                                   "after" \in DOMAIN q /\ q.after.status = "VIOLATION" /\ ~q.after.inbl, <<q.o>>))
+                         /\ Walk(ReqOne(s, q), Tail(qs))
+          IN Walk(pre, e.reqs))
+    \* nothing refused is ever sent: every order of every package was accepted
+    /\ (e.ev = "cb" => \A i \in DOMAIN e.pkgs : \A j \in DOMAIN e.pkgs[i].orders :
+          Ck("C01", "RefusedNeverSent",
+             \E k \in DOMAIN e.reqs : e.reqs[k].o = e.pkgs[i].orders[j] /\ e.reqs[k].r = "ACCEPT" /\ e.reqs[k].kind = e.pkgs[i].kind,
+             <<e.pkgs[i].kind, e.pkgs[i].orders[j]>>))
+    \* consequence: under acknowledgement discipline the worst-case loss per selection stays within the limit
+    /\ (e.ev = "upd" =>
+          \A sn \in DOMAIN e.a.limits :
+             e.a.limits[sn].maxsel >= 0 =>
+               \A mid \in DOMAIN pre.mkt :
+                  LET bs == BySel(pre, sn, mid) IN
+                  \A sk \in DOMAIN bs :
+                     Ck("C01", "LossBounded",
+                        EXP!SelectionLoss(bs[sk]) <= e.a.limits[sn].maxsel * 100 + (Cardinality(DOMAIN bs[sk]) + 1) * 100,
+                        <<sn, mid, sk, EXP!SelectionLoss(bs[sk]), e.a.limits[sn].maxsel>>))
+
 -----------------------------------------------------------------------------
 StepOK(pre, e) ==
     /\ ("R" \in Props => (Conforms(pre, e) /\ (e.ev = "cb" => ReqVerdicts(pre, e.reqs, 1))))
@@ -433,6 +510,7 @@ StepOK(pre, e) ==
     /\ ("C09" \in Props => P_C09(pre, e))
     /\ ("C08" \in Props => P_C08(pre, e))
     /\ ("C20" \in Props => P_C20(pre, e))
+    /\ ("C01" \in Props => P_C01(pre, e))
     /\ ("C07" \in Props => P_C07T(pre, e))
     /\ ("C03" \in Props => P_C03(pre, e))
     /\ ("C04" \in Props => P_C04(pre, e))
